@@ -5,7 +5,7 @@ import os, json, shutil, re, sys
 SRC = "/var/tmp/seedsrc"
 OUT = "/verif/seeded"
 conf = {}
-for f in ("/var/tmp/confirm_all.txt", "/var/tmp/confirm_all2.txt"):
+for f in ("/var/tmp/confirm_all.txt", "/var/tmp/confirm_all2.txt", "/var/tmp/confirm_all3.txt"):
     if os.path.exists(f):
         for line in open(f):
             m = re.match(r"(\S+) suite_with_change_rc=(\d+) failed_targets=(\d+) demo_with_change_rc=(\d+) demo_without_change_rc=(\d+)", line)
@@ -34,6 +34,14 @@ T = {  # id: (property, needs to manifest, demo features, caught by)
  "C16": ("C16", "erased WeakTellHandler::upgrade filtered by is_alive: None where ActorWeak::upgrade gives Some (actor ended, another strong ref alive)", "-", "deductive: erased.weak_tell_handler.upgrade.same_relation (after adding the Option::filter unfolding rule; before that: undecided)"),
  "C17": ("C17", "blocking_tell(Some) on a full mailbox reports Timeout but the helper thread still delivers the message later", "-", "not under contract (std::thread + nested runtime) -> always-on bounded scenario blocking_timeout"),
  "C18": ("C18", "with `tracing`: on_tell_result called when an ask's reply cannot be delivered (asker gone)", "tracing", "deductive (tracing feature set): handle_message.ask_reply_is_this_handlers_value"),
+ "C02s": ("C02", "backlog: actor busy in a handler while the stop marker and later sends are accepted; the marker only closes the receiver and the loop drains what is behind it", "-", "deductive: lifecycle.inv.monitor_at_head (a stop marker must lead to on_stop, not back to the loop head); failing input found by the explorer"),
+ "C04s": ("C04", "on_run returns Err and the following on_stop(false) returns Err: a second on_stop(true) is made", "-", "deductive: lifecycle.post.result_matches_history (nothing is accepted after Stopped)"),
+ "C05s": ("C05", "all references dropped (not kill) and on_stop returns Err: result reports killed=true", "-", "deductive: lifecycle.post.result_matches_history (killed must equal the monitor's flag)"),
+ "C07s": ("C07", "last external reference dropped while on_run has not yet returned Ok(false): the lifecycle keeps its own strong reference until then", "-", "deductive: lifecycle.inv.strong_ref_released; failing input found by the explorer (parked on_run, O11)"),
+ "C09s": ("C09", "a capacity that is not a power of two (3, 5, 6, 1000): channel created with next_power_of_two()", "-", "deductive: spawn.mailbox_bound_is_exactly_requested_capacity (explorer O7 also reproduces it with capacity 3)"),
+ "C10s": ("C10", "blocking_ask with Some(d), d < 1 ms: dispatched to the no-timeout variant", "-", "deductive: blocking_ask.some_goes_to_timeout_impl_with_d (after adding Duration::as_millis to the shim; before: undecided)"),
+ "C11s": ("C11", "upgrade() after the actor ended while a strong reference is still held: returns None although the strong count is positive", "-", "deductive: actor_weak.upgrade.some_iff_both_senders_upgrade"),
+ "C16s": ("C16", "erased WeakActorControl::is_alive after the actor ended with a strong ref still held: computed via upgrade + ActorRef::is_alive", "-", "deductive: erased.weak_control.is_alive.same_relation"),
  "C20": ("C20", "handler panics / task aborted while the handler is suspended: inline timing after the handler instead of the RAII guard loses the count", "metrics", "deductive: lifecycle.inv.metrics_guard_closed (guard must be opened before the handler)"),
 }
 os.makedirs(OUT, exist_ok=True)
@@ -70,3 +78,18 @@ for sid, (prop, needs, feats, caught) in sorted(T.items()):
     }
     json.dump(meta, open(os.path.join(d, "meta.json"), "w"), indent=1)
     print("kept", sid)
+
+# ---- README table
+rows = []
+for sid in sorted(os.listdir(OUT)):
+    mp = os.path.join(OUT, sid, "meta.json")
+    if os.path.exists(mp):
+        m = json.load(open(mp))
+        rows.append("| %s | %s | %s | %s |" % (sid, m["breaks_property"], m["needs_to_manifest"], m["caught_by"]))
+open(os.path.join(OUT, "README.md"), "w").write(
+    "# Seeded breaking changes\n\nEach directory holds a change to hiking90/rsactor written by an independent sub-agent that saw only the property text "
+    "(patch.diff), its demonstration (seeded_demo.rs: fails with the change, passes without), the author's notes and meta.json "
+    "(what it needs to manifest, my own confirmation runs, which check catches it). None of them is ever committed to /repo.\n\n"
+    "Run one:  `git -C /repo apply seeded/<id>/patch.diff; ./check <property>; git -C /repo checkout -- .`\n\n"
+    "| id | property | needs to manifest | caught by |\n|---|---|---|---|\n" + "\n".join(rows) + "\n")
+print("README rows:", len(rows))
